@@ -9,3 +9,6 @@ open GrVerif.Props.C06
 #print axioms failed_pass_constraint_skips_the_pass
 #print axioms pass_constraint_that_dies_ends_the_run
 #print axioms pass_without_constraint_runs
+#print axioms call_without_bidi_step
+#print axioms call_with_bidi_step
+#print axioms call_beside_bidi_step
